@@ -20,7 +20,15 @@ def main():
     m = __import__(mod)
     if len(sys.argv) > 3 and sys.argv[2] == '--replay':
         return m.replay_file(arg, sys.argv[3])
-    return m.main(arg)
+    try:
+        return m.main(arg)
+    except SystemExit:
+        raise
+    except BaseException as e:   # a crash of the machinery is never a verdict
+        import traceback
+        traceback.print_exc()
+        print('INCONCLUSIVE property=%s machinery crashed: %r' % (pid, e))
+        return 2
 
 
 if __name__ == '__main__':
